@@ -152,6 +152,11 @@ func TestC14_Rapid(t *testing.T) {
 		q := rapid.SampledFrom(append([]rune{'|', 'x', '😀', 0x100, 0xfffe}, c14Quotes...)).Draw(rt, "quote")
 		n := rapid.IntRange(0, 40).Draw(rt, "len")
 		var sb strings.Builder
+		if rapid.IntRange(0, 49).Draw(rt, "huge") == 0 {
+			// several KB of multi-byte text: buffer-size thresholds inside one literal
+			sb.WriteString(strings.Repeat("x", rapid.IntRange(0, 3).Draw(rt, "shift")))
+			sb.WriteString(strings.Repeat(rapid.SampledFrom([]string{"é", "中", "😀", "ab中"}).Draw(rt, "unit"), rapid.IntRange(1400, 3200).Draw(rt, "reps")))
+		}
 		for i := 0; i < n; i++ {
 			switch rapid.IntRange(0, 4).Draw(rt, "k") {
 			case 0:
@@ -189,7 +194,7 @@ func FuzzC14(f *testing.F) {
 	f.Add("'é'", uint8(1), uint8(0), true)
 	f.Add("a''b", uint8(2), uint8(0), false)
 	f.Fuzz(func(t *testing.T, s string, st uint8, qi uint8, raw bool) {
-		if len(s) > 4096 {
+		if len(s) > 1<<16 {
 			t.Skip()
 		}
 		c := c14Case{State: c14States[int(st)%3], Quote: c14Quotes[int(qi)%len(c14Quotes)], S: string([]rune(s)), Raw: raw}
